@@ -104,6 +104,8 @@ func (g *Group) batchEvent(t *TraceWriter, base reflect.Value, n int, r *Rng) {
 	for i := 0; i < n; i++ {
 		var v *big.Int
 		switch i % 5 {
+		case 3:
+			v = big.NewInt(0) // zero scalars in the middle of the batch (identity results)
 		case 0:
 			v = big.NewInt(int64(i / 5)) // 0, 1, 2 ...
 		case 1:
@@ -198,7 +200,7 @@ func runC03(args []string) {
 					g.jointEvent(t, "JointScalarMultiplicationBase", P1, P1, s1, s2)
 				}
 			}
-			for _, n := range []int{0, 1, 2, 17} {
+			for _, n := range []int{0, 1, 2, 4, 17} {
 				if slow && n > 2 && *tier != "thorough" {
 					n = 6
 				}
